@@ -49,6 +49,8 @@ def rule_z1(repo, col):
             m = x.module
             parents = m.parents()
             for f in x.methods.values():
+                if f.name in ("set_evidence", "set_weight", "_set_value"):
+                    continue  # per-literal checks (an evidence atom of weight zero), not the evidence weight as a whole
                 for r in walk_no_nested(f.node):
                     if isinstance(r, ast.Raise) and ef.exc_class_of(m, r.exc) is inc:
                         # enclosing if tests
@@ -172,9 +174,28 @@ def rule_z3(repo, col):
     col.decide("Z3", m, l, others_add >= 2, "non-deterministic evidence reaches add_evidence", "no path adds the remaining evidence to the evaluator",
                construct="get_evaluator: add_evidence rows", function="Evaluatable.get_evaluator")
     # signs: add_evidence(ev_value * ev_index) ; with an evidence dict: +index for true, -index for false
-    adds = [n for n in ast.walk(l) if isinstance(n, ast.Call) and dotted(n.func) == "evaluator.add_evidence"]
-    srcs = sorted(norm(a.args[0]) for a in adds)
-    ok = set(srcs) <= {"%s * %s" % (val, ix), "%s * %s" % (ix, val), ix, "-%s" % ix} and ix in srcs and "-%s" % ix in srcs
+    srcs = []
+    ok = True
+    seen_pos = seen_neg = False
+    for p in paths:
+        conds = dict((s, t) for s, t, _ in p.conds)
+        for fn, a, _ in p.calls:
+            if fn != "evaluator.add_evidence":
+                continue
+            srcs.append(a[0])
+            from_dict = conds.get("evidence is None") is False and not any(s.startswith("<except") for s in conds)
+            if from_dict:
+                # value = evidence[ev_name]: true -> +index, false -> -index
+                truthy = [t for s, t in conds.items() if s.startswith("evidence[")]
+                if truthy and truthy[-1]:
+                    ok = ok and a[0] == ix
+                    seen_pos = True
+                else:
+                    ok = ok and a[0] == "-%s" % ix
+                    seen_neg = True
+            else:
+                ok = ok and a[0] in ("%s * %s" % (val, ix), "%s * %s" % (ix, val))
+    ok = ok and seen_pos and seen_neg
     col.decide("Z3", m, l, ok, "evidence literals carry the observed sign", "add_evidence must receive value*index (or +index / -index from an evidence dict); found %s" % srcs,
                construct="get_evaluator: evidence literal signs", function="Evaluatable.get_evaluator")
     # propagate after adding evidence
